@@ -28,9 +28,23 @@ RETRYABLE_STATUS = (429, 502, 503, 504)
 MAX_RETRIES = 10
 
 
-def _meta(status):
-    return elastic_transport.ApiResponseMeta(status=status, http_version="1.1", headers=elastic_transport.HttpHeaders(),
+def _meta(status, headers=None):
+    return elastic_transport.ApiResponseMeta(status=status, http_version="1.1", headers=elastic_transport.HttpHeaders(headers or {}),
                                              duration=0.0, node=elastic_transport.NodeConfig("http", "localhost", 9200))
+
+
+# what an error response of the metrics store (or of a proxy in front of it) may look like: headers and body form
+RESPONSE_FORMS = [({}, {"error": "x"}), ({"retry-after": "0"}, "<html>502 Bad Gateway</html>"), ({"retry-after": "1", "content-type": "application/json"},
+                  {"error": {"type": "es_rejected_execution_exception", "reason": "queue full"}, "status": 429}), ({"Retry-After": "3600"}, {})]
+
+
+def _response_form():
+    """one solver-chosen form per path, chosen when the first API error is built"""
+    c = core.ctx()
+    if not hasattr(c, "_c17_form"):
+        v = fresh_int("api_error_response_form", 0, len(RESPONSE_FORMS) - 1)
+        c._c17_form = core.concretize(v.z) if core.is_sym(v) else v
+    return RESPONSE_FORMS[c._c17_form]
 
 
 class FakeNodePool:
@@ -112,7 +126,8 @@ def raise_or_return(o, i):
     if kind == CONN_ERROR:
         raise elasticsearch.exceptions.ConnectionError("refused", errors=())
     if kind == API:
-        raise elasticsearch.ApiError("api error", _meta(status), {"error": "x"})
+        headers, body = _response_form()
+        raise elasticsearch.ApiError("api error", _meta(status, headers), body)
     if kind == AUTHN:
         raise elasticsearch.exceptions.AuthenticationException("authn", _meta(401), {})
     if kind == AUTHZ:
